@@ -54,7 +54,7 @@ def malformed(rng):
 
 def histories(rng, tier):
     mods = available()
-    share = 40 if tier == 'quick' else 400
+    share = 60 if tier == 'quick' else 400
     out = []
     for m in mods:
         hs = m.histories(rng, 'quick')
